@@ -145,14 +145,14 @@ def gen_cases(ctx, scale, modelled_only):
     cases = []
     for cid in sorted(CONFIGS):
         mc = CONFIGS[cid][0]
-        for _ in range((3 if mc <= 8 else 1) * scale):
+        for _ in range((6 if mc <= 8 else 2) * scale):
             cases.append(gen_separator_history(r, cid))
-        n = (10 if mc <= 8 else 4) * scale
+        n = (30 if mc <= 8 else 10) * scale
         for _ in range(n):
             nops = r.choice([20, 40, 80, 160]) if mc <= 8 else r.choice([60, 120])
             cases.append(gen_history(r, cid, nops, modelled_only))
         if not modelled_only:
-            for _ in range(6 * scale):
+            for _ in range(15 * scale):
                 cases.append(gen_merge_history(r, cid))
     return cases
 
@@ -297,7 +297,7 @@ def replay(ctx, rp):
     print('property holds on this case'); return 0
 
 def run(ctx):
-    scale = 1 if ctx.quick() else 10
+    scale = 1 if ctx.quick() else 8
     ctx.trusted += ['tools/cxx2coq.py + clang 14 JSON AST for GetSplitItemIndex / GetCapacity / pvGetLeafMemPoolIndex (validated through the shape correspondence)',
                     'extraction: ExtrOcamlBasic only (no Extract Constant; Extraction Blacklist for module names), OCaml 4.13.1, zarith for decimal I/O only',
                     'g++ 12 -std=c++17, harness reaches private members via #define private public',
